@@ -24,7 +24,10 @@ def get_input(filename):
         else:
             verif.util.error("File '" + filename + "' does not have the correct Netcdf format")
     elif verif.input.Text.is_valid(filename):
-        input = verif.input.Text(filename)
+        try:
+            input = verif.input.Text(filename)
+        except UnicodeDecodeError:
+            verif.util.error("File '" + filename + "' is not a valid input file")
     else:
         verif.util.error("File '" + filename + "' is not a valid input file")
     return input
